@@ -19,6 +19,12 @@ each of the nine names, a missing name} (both arguments for FillCompute), plus a
 (None, numbers, containers, functions, lena elements and sequences): construction raises LenaTypeError
 exactly where the docstring says the element is not accepted, and an accepted adapter, driven with a
 canned input, does what the wrapped method does on a twin object.
+
+Bounds (order of work): the adapter table is one bound and goes first, then one bound per stage of the
+chain plan (short chains on long flows before long chains on short flows). The table costs about a
+twentieth of the chains; with one unlabelled bound and the table last, a run that was cut by its wall
+budget on a busy machine had "bounds completed: []" and had judged no adapter at all, while reporting
+"new violations=0". Now a cut run names the bounds it completed, and the cheap laws are among them.
 """
 import itertools
 
@@ -76,22 +82,33 @@ BUDGET_S = {"quick": 240, "thorough": 2400}
 
 
 def _dom(tier):
-    """plan: list of (pre alphabet, pre lengths, post lengths, largest flow length)."""
+    """plan: list of stages (pre alphabet, pre lengths, post lengths, largest flow length, number of
+    parts every accumulator's chains of this stage are striped over). A stage is a bound of its own."""
     if tier == "thorough":
-        return dict(plan=[(ch.PRE_THOROUGH, (0, 1, 2), (0, 1), 7),
-                          (ch.PRE_THOROUGH, (0, 1), (2,), 5),
-                          (ch.PRE_QUICK, (3,), (0, 1), 4)],
-                    parts=16, full_kinds=True)
-    return dict(plan=[(ch.PRE_QUICK, (0, 1), (0, 1), 5),
-                      (ch.PRE_QUICK, (2,), (0, 1), 4)],
-                parts=8, full_kinds=False)
+        return dict(plan=[(ch.PRE_THOROUGH, (0, 1, 2), (0, 1), 7, 4),
+                          (ch.PRE_THOROUGH, (0, 1), (2,), 5, 1),
+                          (ch.PRE_QUICK, (3,), (0, 1), 4, 16)],
+                    full_kinds=True)
+    return dict(plan=[(ch.PRE_QUICK, (0, 1), (0, 1), 5, 1),
+                      (ch.PRE_QUICK, (2,), (0, 1), 4, 8)],
+                full_kinds=False)
+
+
+BOUND_ADAPTERS = "adapter table"
+
+
+def _stage_label(stage):
+    alpha, pre_lens, post_lens, maxm, _ = stage
+    return ("chains: pre of length %s over %d elements, post of length %s, flows of 0..%d values"
+            % ("/".join(str(n) for n in pre_lens), len(alpha), "/".join(str(n) for n in post_lens), maxm))
 
 
 def describe(tier):
     d = _dom(tier)
     plan = "; ".join("pre of length %s over %s with post of length %s and flows of 0..%d values"
-                     % (list(pl), alpha, list(ql), m) for alpha, pl, ql, m in d["plan"])
-    return ("chains: %s; accumulators %s; post elements %s; flows bare and with context; drivers: fcs, "
+                     % (list(pl), alpha, list(ql), m) for alpha, pl, ql, m, _ in d["plan"])
+    return ("bounds in this order: the adapter table, then the chain stages. chains: %s; accumulators %s; "
+            "post elements %s; flows bare and with context; drivers: fcs, "
             "fillseq, split-tuple/split-first/split-last (and split-bare for a lone accumulator) with bufsize in "
             "{1..n+1, 1000, None}, split-fcs with bufsize in %s; companion branch %s. adapters: %s element kinds over %s x "
             "%s x method-name arguments %s; real objects %s with names %s"
@@ -105,11 +122,14 @@ def describe(tier):
 # ---------------------------------------------------------------------------------------------------
 # enumeration
 
-def _chain_plan(tier):
-    """List of (pre, post, max flow length), each (pre, post) exactly once, simplest first."""
+def _chain_plan(tier, stage):
+    """List of (pre, post, max flow length) of stage number *stage*; over all stages each (pre, post)
+    occurs exactly once (in the first stage that has it), simplest first."""
     seen = set()
     plan = []
-    for alpha, pre_lens, post_lens, maxm in _dom(tier)["plan"]:
+    for number, (alpha, pre_lens, post_lens, maxm, _) in enumerate(_dom(tier)["plan"]):
+        if number > stage:
+            break
         for pre in ch.pre_chains(alpha, max(pre_lens)):
             if len(pre) not in pre_lens:
                 continue
@@ -120,7 +140,8 @@ def _chain_plan(tier):
                 if key in seen:
                     continue
                 seen.add(key)
-                plan.append((pre, post, maxm))
+                if number == stage:
+                    plan.append((pre, post, maxm))
     plan.sort(key=lambda t: (len(t[0]) + len(t[1]), len(t[0])))    # stable: simplest first
     return plan
 
@@ -139,17 +160,23 @@ def _kinds(tier):
 
 
 def shards(tier):
+    """Cheapest bound first (the runner visits the bounds in the order in which they first occur and a
+    run that is stopped by its time budget reports the bounds it completed): the whole adapter table
+    costs a twentieth of the chains and carries two of the three laws, so it is never what a budget
+    stop leaves out; then the chains stage by stage."""
     d = _dom(tier)
-    out = []
-    for part in range(d["parts"]):
-        for acc in ch.ACCS:
-            out.append({"kind": "chains", "acc": acc, "part": part, "parts": d["parts"]})
+    out = [{"kind": "objects", "bound": BOUND_ADAPTERS}]
+    for s0 in (0, 1):
+        out.append({"kind": "adapters", "s0": s0, "falsy": True, "bound": BOUND_ADAPTERS})
     for s0 in (0, 1, 2):
         for s1 in (0, 1, 2):
-            out.append({"kind": "adapters", "s0": s0, "s1": s1})
-    for s0 in (0, 1):
-        out.append({"kind": "adapters", "s0": s0, "falsy": True})
-    out.append({"kind": "objects"})
+            out.append({"kind": "adapters", "s0": s0, "s1": s1, "bound": BOUND_ADAPTERS})
+    for number, stage in enumerate(d["plan"]):
+        parts = stage[4]
+        for part in range(parts):
+            for acc in ch.ACCS:
+                out.append({"kind": "chains", "acc": acc, "stage": number, "part": part, "parts": parts,
+                            "bound": _stage_label(stage)})
     return out
 
 
@@ -207,7 +234,7 @@ class _Chains(object):
 
 
 def run_chains(res, p, tier):
-    plan = _chain_plan(tier)[p["part"]::p["parts"]]
+    plan = _chain_plan(tier, p["stage"])[p["part"]::p["parts"]]
     runner = _Chains(res, _dom(tier)["full_kinds"])
     acc = p["acc"]
     for pre, post, maxm in plan:
